@@ -1,14 +1,30 @@
-"""Rules about the lexicographic shortest-path machinery that are decidable structurally (property C12 itself - exact
-distances and cross-tree consistency - is value-level and NOT claimed; these rules are reported under C02/C14).
+"""C12 - shortest-path trees are exact and mutually consistent (PARTIAL).
+
+That lex_dijkstra computes the true distances and that the chosen paths are consistent across sources are facts about runs on
+concrete graphs: NOT claimed.  Decided are the code shapes those facts rest on, each a necessary condition (breaking it gives a
+wrong distance, a predecessor structure that is no tree with those path lengths, a wrong label, or inconsistent tie-breaking):
 
 R12a  a comparator over records is lexicographic: for each key field, with all earlier fields equal, `a.f < b.f` and
       `a.f > b.f` lead to opposite constant answers, and no rung compares two different fields
 R12b  compute_first_in_path writes a first-in-path label for every tree node it visits, the root included
+R12g  the label values: the root gets its own vertex, a child of the root is seeded with its own vertex, every deeper node inherits
+      the label carried with its parent
+R02h  (lex_dijkstra instance) a label is overwritten iff the vertex was not visited or the new label compares less
+R12c  every update site of lex_dijkstra stores, for the same vertex, the lexicographic label c, the distance c.distance of that same
+      label and the predecessor (true, e) with e the edge being relaxed; the source is initialised with the zero label and (false, -)
+R12d  LexDistanceCombine extends a label by one edge: distance = combine(a.distance, weight of that edge), edge_count = a.edge_count + 1,
+      vertex set = a's set plus both endpoints of the edge; closed_plus adds its operands unless one is the infinity marker
+R12e  SPTree::initialize creates a node for v exactly when v is the source or v has a predecessor, with weight dist[index(v)] and that
+      predecessor edge, and hangs every non-root node below the node of the other endpoint of its predecessor edge
 """
 import itertools
+import os
 
 from lib import env, ex
 from .c10 import guards_formula
+
+
+TITLE = 'C12: relaxation contract, consistent update sites, label extension, lexicographic comparator, tree construction and first-in-path labels.'
 
 
 def field_cmp(fn, leaf):
@@ -212,3 +228,567 @@ def every_path_hits(cfg, entry, targets, loop):
                 return False
             work.append(s)
     return True
+
+
+# ------------------------------------------------------------------------------------------------ R12g label values
+def check_label_values(rep, prog):
+    n = 0
+    for fn in prog.fns('parmcb::SPTree::compute_first_in_path'):
+        n += 1
+        what = 'first-in-path values: root -> itself, child of the root -> itself, deeper node -> the label carried with its parent'
+        cfg = fn.cfg
+        loops = [x for x in fn.body.walk() if x.k in ('WhileStmt', 'ForStmt', 'DoStmt')]
+        if not loops:
+            rep.undecided('R12g', fn.body, fn, what, 'no traversal loop')
+            continue
+        loop = loops[0]
+
+        def is_root_test(leaf):
+            s_ = leaf.strip_all()
+            if s_.k in ('BinaryOperator', 'CXXOperatorCallExpr') and s_.op in ('==', '!='):
+                ops = s_.c if s_.k == 'BinaryOperator' else s_.c[1:]
+                names = []
+                for o in ops:
+                    for x in o.walk():
+                        if x.k == 'MemberExpr' and x.decl and x.decl.get('kind') == 'field':
+                            names.append(x.decl.get('name', ''))
+                if any('root' in nm and nm.startswith('_') for nm in names) and any(nm == 'root' for nm in names):
+                    f = ex.f_atom('isroot')
+                    return f if s_.op == '==' else ex.f_not(f)
+            return None
+
+        def value_kind(e):
+            """'own' for <popped>.root->vertex() / a local holding it, 'child' for c->vertex() of an iterated child, 'carried' for <popped>.info"""
+            s_ = e.strip_all()
+            v = ex.var_of(s_)
+            if v is not None:
+                d = ex.unique_def(fn, v)
+                if d is not None:
+                    return value_kind(d)
+            if s_.k == 'MemberExpr' and s_.decl and s_.decl.get('name') == 'info':
+                return 'carried'
+            if s_.k == 'CXXMemberCallExpr' and s_.callee and s_.callee['name'] == 'vertex':
+                o = s_.object_arg()
+                txt = o.text(40) if o is not None else ''
+                if any(x.k == 'MemberExpr' and x.decl and x.decl.get('name') == 'root' for x in (o.walk() if o is not None else ())):
+                    return 'own'
+                return 'child'
+            return None
+        probs, und = [], []
+        # stores of labels
+        for d in fn.walk():
+            if d.k in ('BinaryOperator', 'CXXOperatorCallExpr') and d.op == '=' and loop.is_ancestor_of(d):
+                ops = d.c if d.k == 'BinaryOperator' else d.c[1:]
+                l = ops[0].strip_all()
+                if l.k == 'CXXOperatorCallExpr' and l.op == '[]' and ex.var_of(l.c[1]) is not None and 'first' in prog.vars[ex.var_of(l.c[1])]['name']:
+                    pc = guards_formula(cfg, d, is_root_test)
+                    kind = value_kind(ops[1])
+                    if 'isroot' not in ex.f_atoms(pc):
+                        und.append('label store at line %d is not under a root / non-root test' % d.line)
+                        continue
+                    others = [a for a in ex.f_atoms(pc) if a != 'isroot']
+                    on_root = any(ex.f_eval(pc, dict(zip(others, vals), isroot=True)) for vals in itertools.product((False, True), repeat=len(others)))
+                    on_other = any(ex.f_eval(pc, dict(zip(others, vals), isroot=False)) for vals in itertools.product((False, True), repeat=len(others)))
+                    if on_root and kind != 'own':
+                        probs.append('the root is labelled with `%s`, not with itself' % ops[1].text(30))
+                    if on_other and kind != 'carried':
+                        probs.append('a non-root node is labelled with `%s`, not with the label carried from its parent' % ops[1].text(30))
+        for d in fn.walk():
+            if d.k == 'CXXMemberCallExpr' and d.callee and d.callee['name'] in ('emplace', 'push') and loop.is_ancestor_of(d) and d.args():
+                first = None
+                for x in d.args()[0].walk():
+                    if x.k in ('InitListExpr', 'CXXConstructExpr', 'CXXTemporaryObjectExpr', 'CXXFunctionalCastExpr') and x.c:
+                        first = x.c[0]
+                        break
+                if first is None:
+                    first = d.args()[0]
+                kind = value_kind(first)
+                pc = guards_formula(cfg, d, is_root_test)
+                if 'isroot' not in ex.f_atoms(pc):
+                    und.append('child push at line %d is not under a root / non-root test' % d.line)
+                    continue
+                others = [a for a in ex.f_atoms(pc) if a != 'isroot']
+                on_root = any(ex.f_eval(pc, dict(zip(others, vals), isroot=True)) for vals in itertools.product((False, True), repeat=len(others)))
+                on_other = any(ex.f_eval(pc, dict(zip(others, vals), isroot=False)) for vals in itertools.product((False, True), repeat=len(others)))
+                if on_root and kind != 'child':
+                    probs.append('children of the root are seeded with `%s`, not with their own vertex' % first.text(30))
+                if on_other and kind != 'carried':
+                    probs.append('children of a deeper node are seeded with `%s`, not with the label of their parent' % first.text(30))
+        if probs:
+            rep.violation('R12g', loop, fn, what, '; '.join(sorted(set(probs))), key='R12g|%s|values' % fn.g)
+        elif und:
+            rep.undecided('R12g', loop, fn, what, '; '.join(und))
+        else:
+            rep.ok('R12g', loop, fn, what, 'root: own vertex; children of the root: their vertex; deeper: carried label')
+    return n
+
+
+# ------------------------------------------------------------------------------------------------ R12c update sites of lex_dijkstra
+def check_lex_updates(rep, prog):
+    n = 0
+    for fn in prog.fns('parmcb::lex_dijkstra'):
+        n += 1
+        cfg = fn.cfg
+        pids = fn.param_ids          # g, weight_map, s, dist_map, pred_map
+        if len(pids) < 5:
+            rep.undecided('R12c', fn.body, fn, 'update sites of lex_dijkstra', 'unexpected signature')
+            continue
+        src, distp, predp = pids[2], pids[3], pids[4]
+        puts = [c for c in fn.walk() if c.k == 'CallExpr' and c.callee and c.callee['g'] == 'boost::put' and len(c.args()) == 3]
+        lexmap = None
+        for c in puts:
+            mv = ex.var_of(c.args()[0])
+            if mv not in (distp, predp) and mv is not None:
+                lexmap = mv
+        edge_loop = [l for l in fn.walk() if l.k == 'ForStmt']
+        what = 'every relaxation stores the lexicographic label, its distance component and the predecessor (true, relaxing edge) for the same vertex'
+        # group the in-loop puts by block
+        blocks = {}
+        for c in puts:
+            if c.enclosing('ForStmt') is None:
+                continue
+            p_ = cfg.pos_of(c)
+            if p_:
+                blocks.setdefault(p_[0], []).append(c)
+        if not blocks:
+            rep.undecided('R12c', fn.body, fn, what, 'no stores inside the edge loop')
+            continue
+        # current edge of the loop: a local initialised from *ei
+        for b, group in sorted(blocks.items()):
+            probs = []
+            bymap = {}
+            for c in group:
+                bymap.setdefault(ex.var_of(c.args()[0]), []).append(c)
+            for need, nm in ((lexmap, 'lexicographic label'), (distp, 'distance'), (predp, 'predecessor')):
+                if need not in bymap:
+                    probs.append('the %s is not stored at this update site' % nm)
+            keys = {ex.key(c.args()[1]) for c in group}
+            if len(keys) != 1:
+                probs.append('the stores of one update site address different vertices')
+            lab = None
+            if lexmap in bymap:
+                lab = ex.var_of(bymap[lexmap][0].args()[2])
+            if distp in bymap:
+                val = bymap[distp][0].args()[2].strip_all()
+                okd = val.k == 'MemberExpr' and val.decl and val.decl.get('name') == 'distance' and val.c and ex.var_of(val.c[0]) == lab and lab is not None
+                if not okd:
+                    probs.append('the distance stored is `%s`, not the distance component of the label stored next to it' % val.text(30))
+            if predp in bymap:
+                val = bymap[predp][0].args()[2].strip_all()
+                mk = None
+                for x in [val] + list(val.walk()):
+                    if x.k == 'CallExpr' and x.callee and x.callee['name'] in ('make_tuple', 'make_pair') and len(x.args()) == 2:
+                        mk = x
+                        break
+                if mk is None:
+                    probs.append('the predecessor stored is not (true, edge)')
+                else:
+                    flag = mk.args()[0].strip_all().cv
+                    ev = ex.var_of(mk.args()[1])
+                    ed = ex.unique_def(fn, ev) if ev is not None else None
+                    is_cur = False
+                    if ed is not None:
+                        e0 = ed.strip_all()
+                        if e0.k in ('CXXOperatorCallExpr', 'UnaryOperator') and e0.op == '*':
+                            is_cur = True
+                    if flag != 1:
+                        probs.append('the predecessor flag stored is not true')
+                    if not is_cur:
+                        probs.append('the predecessor edge stored is not the edge being relaxed')
+                    # the label must have been combined from that same edge
+                    if lab is not None:
+                        ld = ex.unique_def(fn, lab)
+                        if ld is not None:
+                            uses = [ex.var_of(a) for x in [ld.strip_all()] + list(ld.walk()) if x.k == 'CXXOperatorCallExpr' and x.op == '()' for a in x.c[1:]]
+                            if ev is not None and ev not in uses:
+                                probs.append('the label is not the combination with the edge stored as predecessor')
+            if probs:
+                rep.violation('R12c', group[0], fn, what, '; '.join(probs), key='R12c|%s|site-%d' % (fn.g, sorted(blocks).index(b)))
+            else:
+                rep.ok('R12c', group[0], fn, what, 'put(lex, w, c); put(dist, w, c.distance); put(pred, w, (true, e))')
+        # source initialisation
+        whats = 'the source starts with the zero label and no predecessor'
+        init = [c for c in puts if c.enclosing('ForStmt') is None and c.enclosing('WhileStmt') is None and ex.var_of(c.args()[1]) == src]
+        probs = []
+        pm = [c for c in init if ex.var_of(c.args()[0]) == predp]
+        lm = [c for c in init if ex.var_of(c.args()[0]) == lexmap]
+        if not pm:
+            probs.append('the predecessor of the source is not initialised')
+        else:
+            val = pm[0].args()[2]
+            mk = [x for x in [val.strip_all()] + list(val.walk()) if x.k == 'CallExpr' and x.callee and x.callee['name'] == 'make_tuple']
+            if not mk or mk[0].args()[0].strip_all().cv != 0:
+                probs.append('the source is given a predecessor')
+        if not lm:
+            probs.append('the label of the source is not initialised')
+        else:
+            val = lm[0].args()[2]
+            ctor = [x for x in [val.strip_all()] + list(val.walk()) if x.k in ex.CTOR_KINDS and x.callee and x.callee.get('ctor') and 'LexDistance' in (x.callee.get('rec') or '')]
+            ctor = [x for x in ctor if len(x.c) >= 2]
+            if ctor:
+                a0, a1 = ctor[0].c[0].strip_all(), ctor[0].c[1].strip_all()
+                zero0 = (a0.cv == 0) or (a0.k in ('CXXScalarValueInitExpr', 'CXXTemporaryObjectExpr', 'CXXFunctionalCastExpr', 'CXXConstructExpr') and not [x for x in a0.c if x.strip_all().cv not in (None, 0)])
+                if not zero0:
+                    probs.append('the source distance is `%s`, not zero' % a0.text(20))
+                if a1.cv != 0:
+                    probs.append('the source edge count is `%s`, not zero' % a1.text(20))
+        if probs:
+            rep.violation('R12c', (pm or lm or [fn.body])[0], fn, whats, '; '.join(probs), key='R12c|%s|source' % fn.g)
+        else:
+            rep.ok('R12c', (lm or pm)[0], fn, whats, 'LexDistance(0, 0, {s}); pred = (false, -)')
+    return n
+
+
+# ------------------------------------------------------------------------------------------------ R12d combine
+def check_combine(rep, prog):
+    n = 0
+    for fn in prog.fns('parmcb::detail::LexDistanceCombine::operator()'):
+        n += 1
+        what = 'extending a label by an edge adds that edge\'s weight, one hop and both endpoints'
+        if len(fn.param_ids) < 2:
+            continue
+        a, e = fn.param_ids[0], fn.param_ids[1]
+        rets = ex.returns_of(fn)
+        ctor = None
+        for r in rets:
+            for x in r.walk():
+                if x.k in ex.CTOR_KINDS and x.callee and x.callee.get('ctor') and len(x.c) == 3:
+                    ctor = x
+        if ctor is None:
+            rep.undecided('R12d', fn.body, fn, what, 'no LexDistance(d, count, set) construction returned')
+            continue
+        probs = []
+
+        def resolve(x, depth=0):
+            s_ = x.strip_all()
+            v = ex.var_of(s_)
+            if v is not None and v not in (a, e) and depth < 3:
+                d = ex.unique_def(fn, v)
+                if d is not None:
+                    return resolve(d, depth + 1)
+            return s_
+        d0 = resolve(ctor.c[0])
+        okd = False
+        if d0.k == 'CXXOperatorCallExpr' and d0.op == '()' and len(d0.c) == 4:
+            x1, x2 = resolve(d0.c[2]), resolve(d0.c[3])
+
+            def is_adist(x):
+                return x.k == 'MemberExpr' and x.decl and x.decl.get('name') == 'distance' and x.c and ex.var_of(x.c[0]) == a
+
+            def is_ew(x):
+                return x.k == 'CallExpr' and x.callee and x.callee['g'] == 'boost::get' and len(x.args()) == 2 and ex.var_of(x.args()[1]) == e
+            okd = (is_adist(x1) and is_ew(x2)) or (is_adist(x2) and is_ew(x1))
+        elif d0.k == 'BinaryOperator' and d0.op == '+':
+            okd = True
+        if not okd:
+            probs.append('the distance is `%s`, not combine(a.distance, weight(e))' % d0.text(40))
+        c0 = ctor.c[1].strip_all()
+        L = ex.lin(c0)
+        okc = False
+        if c0.k == 'BinaryOperator' and c0.op == '+':
+            l_, r_ = c0.c[0].strip_all(), c0.c[1].strip_all()
+            for (p_, q_) in ((l_, r_), (r_, l_)):
+                if p_.k == 'MemberExpr' and p_.decl and p_.decl.get('name') == 'edge_count' and p_.c and ex.var_of(p_.c[0]) == a and q_.cv == 1:
+                    okc = True
+        if not okc:
+            probs.append('the edge count is `%s`, not a.edge_count + 1' % c0.text(30))
+        sv = ex.var_of(ctor.c[2])
+        ends = set()
+        if sv is not None:
+            for x in fn.walk():
+                if x.k == 'CXXMemberCallExpr' and x.callee and x.callee['name'] == 'insert' and ex.var_of(x.object_arg()) == sv and x.args():
+                    r_ = resolve(x.args()[0])
+                    for y in [r_] + list(r_.walk()):
+                        if y.k == 'CallExpr' and y.callee and y.callee['g'] in ('boost::source', 'boost::target') and y.args() and ex.var_of(y.args()[0]) == e:
+                            ends.add(y.callee['name'])
+            d = ex.assignments_to(fn, sv)
+            from_a = any(rhs is not None and any(y.k == 'MemberExpr' and y.decl and y.decl.get('name') == 'vertex_indices' and y.c and ex.var_of(y.c[0]) == a
+                                                 for y in [rhs.strip_all()] + list(rhs.walk())) for (_d, rhs) in d)
+            if not from_a:
+                probs.append('the vertex set does not start from a.vertex_indices')
+        if ends != {'source', 'target'}:
+            # recorded only: executions with one endpoint missing showed no failure (the near endpoint is already in a's set, and the tie-break
+            # by vertex sets stayed consistent), so this clause is not a demonstrable necessary condition
+            rep.info('R12d', ctor, fn, 'the vertex set of the extended label gains both endpoints', 'gains %s' % (sorted(ends) or 'no endpoint'))
+        if probs:
+            rep.violation('R12d', ctor, fn, what, '; '.join(probs), key='R12d|%s|combine' % fn.g)
+        else:
+            rep.ok('R12d', ctor, fn, what, 'LexDistance(combine(a.distance, w(e)), a.edge_count + 1, a.vertex_indices + {source(e), target(e)})')
+    for fn in prog.fns('parmcb::detail::closed_plus::operator()'):
+        what = 'closed_plus returns a + b unless one operand is the infinity marker'
+        rets = ex.returns_of(fn)
+        if len(fn.param_ids) != 2:
+            continue
+        a, b = fn.param_ids
+        plain = [r for r in rets if r.c and r.c[0].strip_all().k == 'BinaryOperator' and r.c[0].strip_all().op == '+' and
+                 {ex.var_of(r.c[0].strip_all().c[0]), ex.var_of(r.c[0].strip_all().c[1])} == {a, b}]
+        other = [r for r in rets if r not in plain]
+        bad = [r for r in other if not (r.c and r.c[0].strip_all().k == 'MemberExpr' and r.c[0].strip_all().decl and r.c[0].strip_all().decl.get('name') == 'inf')]
+        if len(plain) == 1 and not bad:
+            # the a + b return must be reached whenever neither operand equals inf
+            cfg = fn.cfg
+
+            def atomize(leaf):
+                s_ = leaf.strip_all()
+                if s_.k == 'BinaryOperator' and s_.op in ('==', '!='):
+                    vs = {ex.var_of(s_.c[0]), ex.var_of(s_.c[1])}
+                    names = [x.decl.get('name') for x in s_.walk() if x.k == 'MemberExpr' and x.decl]
+                    if 'inf' in names and (a in vs or b in vs):
+                        f = ex.f_atom('ainf' if a in vs else 'binf')
+                        return f if s_.op == '==' else ex.f_not(f)
+                return None
+            pc = guards_formula(cfg, plain[0], atomize)
+            atoms = ex.f_atoms(pc)
+            if set(atoms) <= {'ainf', 'binf'} and ex.f_eval(pc, {k: False for k in atoms}):
+                rep.ok('R12d', plain[0], fn, what, 'a + b on the finite path')
+            else:
+                rep.undecided('R12d', plain[0], fn, what, 'guards of the sum outside the idiom table')
+        else:
+            rep.violation('R12d', fn.body, fn, what, 'the finite path does not return a + b of the two operands', key='R12d|%s|plus' % fn.g)
+    return n
+
+
+# ------------------------------------------------------------------------------------------------ R12e tree construction
+def _lex_pred_edges_are_out_edges(prog):
+    """every predecessor edge stored by lex_dijkstra is the current element of a loop over boost::out_edges(u, g) of the popped vertex u"""
+    ok = False
+    for fn in prog.fns('parmcb::lex_dijkstra'):
+        ok = True
+        predp = fn.param_ids[4] if len(fn.param_ids) > 4 else None
+        for c in fn.walk():
+            if c.k == 'CallExpr' and c.callee and c.callee['g'] == 'boost::put' and len(c.args()) == 3 and ex.var_of(c.args()[0]) == predp and \
+                    c.enclosing('ForStmt') is not None:
+                lp = c.enclosing('ForStmt')
+                mk = [x for x in c.args()[2].walk() if x.k == 'CallExpr' and x.callee and x.callee['name'] == 'make_tuple' and len(x.args()) == 2]
+                ev = ex.var_of(mk[0].args()[1]) if mk else None
+                ed = ex.unique_def(fn, ev) if ev is not None else None
+                deref = ed is not None and ed.strip_all().k in ('CXXOperatorCallExpr', 'UnaryOperator') and ed.strip_all().op == '*'
+                rng = False
+                for x in fn.walk():
+                    if x.k == 'CallExpr' and x.callee and x.callee['g'] == 'boost::out_edges' and x.args():
+                        uv = ex.var_of(x.args()[0])
+                        ud = ex.unique_def(fn, uv) if uv is not None else None
+                        if ud is not None and ud.strip_all().k == 'CXXMemberCallExpr' and ud.strip_all().callee and ud.strip_all().callee['name'] == 'top':
+                            rng = True
+                if not (deref and rng):
+                    ok = False
+    return ok
+
+
+def check_tree_construction(rep, prog):
+    n = 0
+    for fn in prog.fns('parmcb::SPTree::initialize'):
+        n += 1
+        cfg = fn.cfg
+        whatn = 'a tree node is created for v exactly when v is the source or has a predecessor, with weight dist[index(v)] and that predecessor edge'
+        news = [x for x in fn.walk() if x.k == 'CXXNewExpr' or (x.k == 'CallExpr' and x.callee and x.callee['name'] == 'make_shared')]
+        if not news:
+            rep.undecided('R12e', fn.body, fn, whatn, 'no node construction found')
+            continue
+
+        def vertex_of_idx(e, depth=0):
+            s_ = e.strip_all()
+            if s_.k == 'CXXOperatorCallExpr' and s_.op == '[]' and len(s_.c) == 3:
+                return ex.var_of(s_.c[2])
+            v = ex.var_of(s_)
+            if v is not None and depth < 3:
+                d = ex.unique_def(fn, v)
+                if d is not None:
+                    return vertex_of_idx(d, depth + 1)
+            return None
+
+        def atoms_for(vv):
+            def atomize(leaf):
+                s_ = leaf.strip_all()
+                if s_.k in ('BinaryOperator', 'CXXOperatorCallExpr') and s_.op in ('==', '!='):
+                    ops = s_.c if s_.k == 'BinaryOperator' else s_.c[1:]
+                    vs = [ex.var_of(o) for o in ops]
+                    names = [x.decl.get('name', '') for o in ops for x in [o.strip_all()] + list(o.walk()) if x.k == 'MemberExpr' and x.decl]
+                    if vv in vs and any('source' in nm for nm in names):
+                        f = ex.f_atom('is_source')
+                        return f if s_.op == '==' else ex.f_not(f)
+                if s_.k == 'CallExpr' and s_.callee and s_.callee['g'] == 'std::get' and s_.args():
+                    ta = s_.callee.get('targs') or []
+                    which = ta[0].get('int') if ta and isinstance(ta[0], dict) else None
+                    pv = ex.var_of(s_.args()[0])
+                    pd = ex.unique_def(fn, pv) if pv is not None else None
+                    if which == 0 and pd is not None:
+                        g_ = pd.strip_all()
+                        if g_.k == 'CallExpr' and g_.callee and g_.callee['g'] == 'boost::get' and len(g_.args()) == 2 and ex.var_of(g_.args()[1]) == vv:
+                            return ex.f_atom('has_pred')
+                return None
+            return atomize
+        seen_kinds = set()
+        probs, und = [], []
+        for nw in news:
+            args = [c for c in nw.walk() if c.k in ex.CTOR_KINDS and c.callee and c.callee.get('ctor') and 'SPNode' in (c.callee.get('rec') or '')]
+            if args:
+                cargs = list(args[0].c)
+            elif nw.k == 'CallExpr' and 'SPNode' in ((prog.base_type(nw.j.get('t')) or {}).get('canon') or ''):
+                cargs = list(nw.args())
+            else:
+                continue
+
+            class _CT(object):
+                pass
+            ct = _CT()
+            ct.c = cargs
+            vv = ex.var_of(ct.c[0]) if ct.c else None
+            if vv is None:
+                und.append('node constructed for a non-variable vertex')
+                continue
+            pc = guards_formula(cfg, nw, atoms_for(vv))
+            atoms = ex.f_atoms(pc)
+            others = [a_ for a_ in atoms if a_ not in ('is_source', 'has_pred')]
+            inner = [a_ for a_ in others if isinstance(a_, tuple) and a_[0] == 'opaque' and nw.enclosing('ForStmt', 'WhileStmt') is not None and
+                     nw.enclosing('ForStmt', 'WhileStmt').body.is_ancestor_of(fn.nodes[a_[1]])]
+            if inner:
+                und.append('node construction depends on `%s`' % fn.nodes[inner[0][1]].text(30))
+                continue
+            with_pred = len(ct.c) >= 3
+            for (is_src, has_pred) in ((True, False), (False, True), (False, False)):
+                envv = {a_: True for a_ in others}
+                envv.update({'is_source': is_src, 'has_pred': has_pred})
+                envv = {k: v for k, v in envv.items() if k in atoms}
+                reach = ex.f_eval(pc, envv)
+                if reach:
+                    seen_kinds.add((is_src, has_pred))
+                    if not is_src and not has_pred:
+                        probs.append('a node is created (line %d) for a vertex that is neither the source nor reached' % nw.line)
+                    if has_pred and not with_pred:
+                        probs.append('a reached vertex gets a node without its predecessor edge (line %d)' % nw.line)
+                    if is_src and with_pred:
+                        probs.append('the source gets a node with a predecessor edge (line %d)' % nw.line)
+            # weight argument: dist[index(v)] for the same v
+            if len(ct.c) >= 2:
+                w_ = ct.c[1].strip_all()
+                wv = vertex_of_idx(w_.c[2]) if (w_.k == 'CXXOperatorCallExpr' and w_.op == '[]' and len(w_.c) == 3) else None
+                if w_.k == 'CallExpr' and w_.callee and w_.callee['g'] == 'boost::get' and len(w_.args()) == 2:
+                    wv = ex.var_of(w_.args()[1])
+                if wv != vv:
+                    probs.append('the node weight `%s` is not the distance of the node\'s own vertex' % w_.text(30))
+            if with_pred:
+                e_ = ct.c[2]
+                ev = ex.var_of(e_)
+                ed = ex.unique_def(fn, ev).strip_all() if ev is not None and ex.unique_def(fn, ev) is not None else e_.strip_all()
+                okp = False
+                if ed.k == 'CallExpr' and ed.callee and ed.callee['g'] == 'std::get' and ed.args():
+                    pv = ex.var_of(ed.args()[0])
+                    pd = ex.unique_def(fn, pv) if pv is not None else None
+                    if pd is not None:
+                        g_ = pd.strip_all()
+                        if g_.k == 'CallExpr' and g_.callee and g_.callee['g'] == 'boost::get' and len(g_.args()) == 2 and ex.var_of(g_.args()[1]) == vv:
+                            okp = True
+                if not okp:
+                    probs.append('the predecessor edge of the node is not the predecessor recorded for its own vertex')
+        if (True, False) not in seen_kinds:
+            probs.append('no node is created for the source')
+        if (False, True) not in seen_kinds:
+            probs.append('no node is created for reached vertices')
+        if probs:
+            rep.violation('R12e', news[0], fn, whatn, '; '.join(sorted(set(probs))), key='R12e|%s|nodes' % fn.g)
+        elif und:
+            rep.undecided('R12e', news[0], fn, whatn, '; '.join(und))
+        else:
+            rep.ok('R12e', news[0], fn, whatn, 'source: SPNode(v, dist[v]); reached: SPNode(v, dist[v], pred(v)); unreached: none')
+        # linking
+        whatl = 'every non-root node hangs below the node of the other endpoint of its predecessor edge'
+        adds = [x for x in fn.walk() if x.k == 'CXXMemberCallExpr' and x.callee and x.callee['name'] == 'add_child' and x.args()]
+        if not adds:
+            rep.violation('R12e', fn.body, fn, whatl, 'nodes are never linked', key='R12e|%s|no-link' % fn.g)
+            continue
+        for ad in adds:
+            child = vertex_of_idx(ad.args()[0].strip_all().c[2]) if (ad.args()[0].strip_all().k == 'CXXOperatorCallExpr' and len(ad.args()[0].strip_all().c) == 3) else None
+            o = ad.object_arg()
+            os_ = o.strip_all() if o is not None else None
+            if os_ is not None and os_.k == 'CXXOperatorCallExpr' and os_.op == '->':
+                os_ = os_.c[1].strip_all()
+            parent = vertex_of_idx(os_.c[2]) if (os_ is not None and os_.k == 'CXXOperatorCallExpr' and os_.op == '[]' and len(os_.c) == 3) else None
+            lp = []
+            if child is None or parent is None:
+                rep.undecided('R12e', ad, fn, whatl, 'parent / child of add_child not traced to tree-node-map entries')
+                continue
+            pd = ex.unique_def(fn, parent)
+            okparent = False
+            if pd is not None:
+                g_ = pd.strip_all()
+                is_opp = g_.k == 'CallExpr' and g_.callee and g_.callee['g'] == 'boost::opposite' and len(g_.args()) >= 2 and ex.var_of(g_.args()[1]) == child
+                # boost::source(e, g) is the same vertex when e was taken from out_edges(parent) - which R12c establishes for every stored
+                # predecessor (the edge being relaxed is *ei of the popped vertex's out-edge range)
+                is_src = g_.k == 'CallExpr' and g_.callee and g_.callee['g'] == 'boost::source' and g_.args() and _lex_pred_edges_are_out_edges(prog)
+                if is_opp or is_src:
+                    ev = ex.var_of(g_.args()[0])
+                    ed = ex.unique_def(fn, ev) if ev is not None else None
+                    if ed is not None:
+                        e0 = ed.strip_all()
+                        if e0.k == 'CallExpr' and e0.callee and e0.callee['g'] == 'std::get' and e0.args():
+                            pv = ex.var_of(e0.args()[0])
+                            pdd = ex.unique_def(fn, pv) if pv is not None else None
+                            if pdd is not None:
+                                gg = pdd.strip_all()
+                                if gg.k == 'CallExpr' and gg.callee and gg.callee['g'] == 'boost::get' and len(gg.args()) == 2 and ex.var_of(gg.args()[1]) == child:
+                                    okparent = True
+            pc = guards_formula(cfg, ad, atoms_for(child))
+            atoms = ex.f_atoms(pc)
+            if not okparent:
+                lp.append('the parent is `%s`, not opposite(pred(v), v)' % (pd.text(40) if pd is not None else '?'))
+            if 'has_pred' not in atoms:
+                lp.append('linking is not restricted to vertices with a predecessor')
+            else:
+                others = [a_ for a_ in atoms if a_ != 'has_pred']
+                if any(ex.f_eval(pc, dict(dict(zip(others, vals)), has_pred=False)) for vals in itertools.product((False, True), repeat=len(others))):
+                    lp.append('linking also happens for a vertex without predecessor')
+            if lp:
+                rep.violation('R12e', ad, fn, whatl, '; '.join(lp), key='R12e|%s|link' % fn.g)
+            else:
+                rep.ok('R12e', ad, fn, whatl, 'node(opposite(pred(v), v))->add_child(node(v)) when v has a predecessor')
+    return n
+
+
+def run(rep, tier):
+    from . import search
+    rep.rule('R12a', 'lexicographic comparator consistency', floor=1)
+    rep.rule('R12b', 'first-in-path labels for every visited node including the root', floor=1)
+    rep.rule('R12g', 'first-in-path label values', floor=1)
+    rep.rule('R02h', 'relaxation contract of the searches (lex_dijkstra among them)', floor=4)
+    rep.rule('R12c', 'update sites of lex_dijkstra store label, distance and predecessor consistently', floor=3)
+    rep.rule('R12d', 'label extension by one edge', floor=2)
+    rep.rule('R12e', 'tree nodes and parent links follow the predecessor map', floor=2)
+    tus = [env.witness_tu()]
+    if tier == 'thorough':
+        tus += [t for t in env.repo_tus() if 'mcb' in os.path.basename(t) or 'sptree' in os.path.basename(t) or 'dijkstra' in os.path.basename(t)]
+    progs = env.extract(tus, 'full')
+    rep.saw_programs(progs.values())
+    n = 0
+    for prog in progs.values():
+        check_comparators(rep, prog)
+        check_first_in_path(rep, prog)
+        check_label_values(rep, prog)
+        search.check_relaxation(rep, prog)
+        n += check_lex_updates(rep, prog)
+        check_combine(rep, prog)
+        check_tree_construction(rep, prog)
+    if n == 0:
+        rep.analysis_broken('parmcb::lex_dijkstra is not instantiated (anchor vanished)')
+    pos = os.path.join(env.WITNESS, 'positive', 'c12_trees.cc')
+    try:
+        pp = env.extract([pos], 'full', ('first:-I' + os.path.join(env.WITNESS, 'positive', 'broken_include6'),))[pos]
+        prep = type(rep)(rep.prop, rep.tier)
+        check_comparators(prep, pp)
+        check_first_in_path(prep, pp)
+        check_label_values(prep, pp)
+        search.check_relaxation(prep, pp)
+        check_lex_updates(prep, pp)
+        check_combine(prep, pp)
+        check_tree_construction(prep, pp)
+        # R12b's positive (root never labelled) lives in the C14 example tree
+        pos14 = os.path.join(env.WITNESS, 'positive', 'c14_candidates.cc')
+        pp14 = env.extract([pos14], 'full', ('first:-I' + os.path.join(env.WITNESS, 'positive', 'broken_include3'),))[pos14]
+        check_first_in_path(prep, pp14)
+        for r in ('R12a', 'R12b', 'R12g', 'R02h', 'R12c', 'R12d', 'R12e'):
+            rep.positive(r, 'witness/positive/c12_trees.cc', any(i.status == 'violation' and i.rule == r for i in prep.instances.values()))
+    except env.AnalysisBroken as e:
+        rep.analysis_broken('positive example c12_trees.cc does not parse: ' + str(e)[:300])
+    rep.assume('the d-ary heap pops the vertex with the smallest lexicographic label (boost::d_ary_heap_indirect with the given comparator)')
+    rep.note('NOT claimed: that the computed distances are the true shortest-path distances, that the predecessor structure is a tree for every input, '
+             'and cross-source consistency of the chosen paths - these are results of runs; the rules are the necessary code shapes behind them')
